@@ -688,6 +688,7 @@ func introType(m map[string]interface{}) *model.TypeRef {
 
 func runC17(c *run.Ctx) {
 	defer c17BuiltinDirectiveRedefined(c)
+	defer c17BuiltTypes(c)
 	c.Rule = "generated schemas (every kind, wrappers to depth 4, deprecations with and without reason on fields - also interface fields - and enum values, descriptions, defaults, directives with locations and " +
 		"arguments, 1-3 root operation types, custom root names); oracle: (a) the standard full introspection query (ofType x7) with includeDeprecated true and false is compared member by member with the " +
 		"model (lists keyed by name), (b) generated introspection documents (random sub-selections, aliases, fragments, includeDeprecated literal/variable/default, __type by literal and variable, unknown names) " +
@@ -1045,4 +1046,42 @@ func c17NestedDeprecation(ms *model.Schema, root *ggql.Root) string {
 		}
 	}
 	return ""
+}
+
+// c17BuiltTypes: a schema whose types were built in Go and handed to AddTypes (an interface with an implementer, a
+// union, an enum, an input, a directive) is described by introspection exactly like the same schema read from a
+// document - possible types of the interface and the union included.
+func c17BuiltTypes(c *run.Ctx) {
+	const sdl = "type Query { a: Int }\ninterface ZzNode { x: Int }\ntype ZzThing implements ZzNode { f(arg: Int): Int x: Int }\nenum ZzColor { RED }\ninput ZzIn { n: Int }\nunion ZzU = ZzThing\ndirective @zzDir(da: Int) on FIELD\n"
+	for _, bk := range []string{"reflect", "iface", "any"} {
+		parsed, err := c17Load(sdl, bk)
+		if err != nil {
+			c.Violation("c17-full", map[string]interface{}{"sdl": sdl, "diag": "document refused: " + err.Error()})
+			return
+		}
+		built, err := c17Load("", bk)
+		if err == nil {
+			err = built.AddTypes(c13BuildTypes("", "")...)
+		}
+		if err != nil {
+			c.Violation("c17-full", map[string]interface{}{"diag": "types built in Go refused: " + err.Error()})
+			return
+		}
+		for _, dep := range []bool{true, false} {
+			var a, b string
+			pv, _ := run.Protect(func() {
+				a = ref.Render(sortIntro(ref.Canon(parsed.ResolveString(c17FullQuery, "Full", map[string]interface{}{"dep": dep})["data"])))
+				rb := built.ResolveString(c17FullQuery, "Full", map[string]interface{}{"dep": dep})
+				b = ref.Render(sortIntro(ref.Canon(rb["data"]))) + fmt.Sprint(rb["errors"])
+				b = strings.TrimSuffix(b, "<nil>")
+			})
+			c.Eval(fmt.Sprintf("built-types|%s|%v", bk, dep), true)
+			c.Count("full_queries_compared", 1)
+			if pv != nil {
+				c.Violation("c17-full", map[string]interface{}{"backend": bk, "diag": fmt.Sprintf("introspecting a schema built with AddTypes panics: %v", pv)})
+			} else if a != b {
+				c.Violation("c17-full", map[string]interface{}{"backend": bk, "sdl": sdl, "diag": "the schema built with AddTypes is described differently from the same schema read from a document: " + firstDiffLong(a, b)})
+			}
+		}
+	}
 }
